@@ -3,8 +3,8 @@
    C01 / C19 (abstract) to C05 / C06 (bytes).  Statements only.
 
    Parameters throughout: instance id [i]; [enc : N -> bytes] abstract key -> TKey, injective, image
-   pairwise prefix free; [venc : N -> bytes] abstract value id -> stored bytes, never empty (badger
-   hands back nil for an empty value).  Client id 0. *)
+   pairwise prefix free; [venc : N -> bytes] abstract value id -> stored bytes (any function: with
+   repo_patches/C05-1-fix an empty stored value is a value).  Client id 0. *)
 From DV Require Import Base.Prelude Base.Int Base.Lex Base.KeyShape Gen.Consts Gen.KeyClasses
      Model.Dag Model.Resolve Model.Core Model.Copy Model.Keys Model.KV Model.KVRange Model.Refine
      Proofs.Resolve Proofs.Core Proofs.Copy Proofs.Keys Proofs.KV Proofs.KVRange Proofs.Refine.
@@ -57,7 +57,6 @@ Print Assumptions Refine_history.
    Model.Resolve.read over the entries built from the stored keys, = Core.get, in the conventions
    of the point read (not found, deleted and unresolved conflict all read as nothing) *)
 Theorem Refine_point_get : forall i enc venc, id_ok i -> (forall k1 k2, enc k1 = enc k2 -> k1 = k2) ->
-  (forall x, venc x <> []) ->
   forall c s, Refines i enc venc c s -> CoreInv c -> forall k v,
   point_get (best_of_core c v) (rcx i v) (enc k) s = point_of venc (get c k v).
 Proof. exact refine_point_get. Qed.
@@ -122,7 +121,7 @@ Print Assumptions Refine_copy.
 
 Theorem Refine_copy_reads_equal : forall i j enc venc c s k v,
   i < 2 ^ 32 - 1 -> id_ok j -> i <> j ->
-  (forall k1 k2, enc k1 = enc k2 -> k1 = k2) -> (forall x, venc x <> []) ->
+  (forall k1 k2, enc k1 = enc k2 -> k1 = k2) ->
   CoreInv c -> Refines i enc venc c s -> instance_slice j s = [] ->
   (forall e, In e s -> in_rangeb (fst (key_range i)) (snd (key_range i)) (fst e) = true -> of_instance i (fst e) = true) ->
   point_get (best_of_core c v) (rcx j v) (enc k) (copy_instance i j s)
@@ -152,10 +151,10 @@ Proof. exact refines_other_instance. Qed.
 Print Assumptions Refine_instance_isolation.
 
 (* ---- instantiation: keyvalue keys.  Abstract key n |-> NewTKey of the string "a" repeated n times
-   (NUL free, so the class is prefix free: C06_tkey_prefix_free_keyvalue); value id x |-> 1 byte tag
-   followed by x, little endian ---- *)
+   (NUL free, so the class is prefix free: C06_tkey_prefix_free_keyvalue); value id 0 |-> the empty
+   value, x > 0 |-> x little endian ---- *)
 Definition ex_enc (n : N) : bytes := kv_tkey (repeat 97 (N.to_nat n)).
-Definition ex_venc (x : N) : bytes := 1 :: le_enc 8 x.
+Definition ex_venc (x : N) : bytes := if x =? 0 then [] else le_enc 8 x.
 
 Example ex_enc_inj : forall k1 k2, ex_enc k1 = ex_enc k2 -> k1 = k2.
 Proof.
@@ -169,13 +168,10 @@ Proof.
   intros k1 k2. unfold ex_enc, kv_tkey. apply tkey_of_prefix_free; simpl; intro H; apply repeat_spec in H; discriminate.
 Qed.
 
-Example ex_venc_nonempty : forall x, ex_venc x <> [].
-Proof. discriminate. Qed.
-
 (* a branched history run on both sides: the store refines the core, and the byte-level reads
    answer what the abstract machine answers (value 200 at the merge, nothing where deleted) *)
 Definition ex_hist : list op :=
-  [OPut 0 1 100; OPut 2 1 7; OCommit 1 true; OChild [1] true; OChild [1] true;
+  [OPut 0 1 100; OPut 2 1 7; OPut 3 1 0; OCommit 1 true; OChild [1] true; OChild [1] true;
    OPut 0 2 200; ODel 2 3; OCommit 2 true; OCommit 3 true; OChild [2; 3] true].
 Example Refine_concrete :
   let c := run ex_hist core_init in
@@ -184,8 +180,9 @@ Example Refine_concrete :
   /\ point_get (best_of_core c 4) (rcx 5 4) (ex_enc 0) s = Some (ex_venc 200)
   /\ point_get (best_of_core c 3) (rcx 5 3) (ex_enc 2) s = None
   /\ get_range (best_of_core c 2) (rcx 5 2) (min_tkey 177) (max_tkey 177) s
-     = Ok [(ex_enc 0, ex_venc 200); (ex_enc 2, ex_venc 7)]
-  /\ length s = 4%nat.
+     = Ok [(ex_enc 0, ex_venc 200); (ex_enc 2, ex_venc 7); (ex_enc 3, [])]
+  /\ point_get (best_of_core c 4) (rcx 5 4) (ex_enc 3) s = Some []      (* an empty value is a value *)
+  /\ length s = 5%nat.
 Proof.
   split; [|vm_compute; repeat split].
   apply (Refine_history 5 ex_enc ex_venc); [unfold id_ok; reflexivity|exact ex_enc_inj|vm_compute; discriminate].
